@@ -116,17 +116,29 @@ func (i *FSMInstance) Do(event fsm.Event, args ...interface{}) (result *fsm.Resp
 		return nil, []byte{}, errors.New("machine is not initialized")
 	}
 
+	// (the round as it stands: what to go back to when the event's outcome cannot be dumped)
+	before, beforeErr := i.dump.Marshal()
+
 	result, err = i.machine.Do(event, args...)
 
 	// On route errors result will be nil
 	if result != nil {
-		i.dump.State = result.State
+		// a refused event comes back without a state: the round stays where it was
+		if result.State != "" {
+			i.dump.State = result.State
+		}
 
 		dump, dumpErr = i.dump.Marshal()
 		if dumpErr != nil {
 			// a round that cannot be dumped must not be reported as a successful step
 			if err == nil {
 				err = fmt.Errorf("failed to dump the round: %w", dumpErr)
+			}
+			// the event is refused as a whole: the round held in memory goes back too
+			if beforeErr == nil {
+				if old, restoreErr := FromDump(before); restoreErr == nil {
+					i.machine, i.dump = old.machine, old.dump
+				}
 			}
 			return result, []byte{}, err
 		}
